@@ -21,7 +21,7 @@
 (* A step that turns out not to be applicable in the real run (e.g. readon    *)
 (* for a subscriber whose Subscribe is still blocked) is logged as `skip`.    *)
 (***************************************************************************)
-EXTENDS Integers, Sequences, FiniteSets, TLC, Json
+EXTENDS BrokerAbs, TLC, Json
 
 CONSTANTS Configs,    \* set of [a, n, w, par, buf]: back-end, capacity, WorkerPoolSize, ParallelDispatch, BufferSize
           Subs, Pubs, \* subscriber / publisher names (strings)
@@ -37,7 +37,7 @@ AllConfigs == {[a |-> b[1], n |-> b[2], w |-> w, par |-> par, buf |-> buf] :
                  b \in Backends, w \in {1, 2}, par \in BOOLEAN, buf \in {0, 1}}
 StepConfigs == {c \in AllConfigs : c.a \in {"deque", "nbdeque", "lifo"} => c.w = 1}
 \* the configurations for which all of C08 is judged (DESIGN 5.0)
-LosslessConfigs == {c \in StepConfigs : c.buf = 0 /\ (c.a = "chan" \/ (c.a \in {"queue", "deque"} /\ c.n = 0))}
+LosslessConfigs == {c \in StepConfigs : Lossless(c.a, c.n, c.buf)}
 OneConfig == {[a |-> "queue", n |-> 0, w |-> 1, par |-> FALSE, buf |-> 0]}
 
 VARIABLES cfg, sub, reading, backlog, atrisk, changes, down, waits, recent, nmsg, hist
